@@ -86,6 +86,14 @@ class BuiltinMixin:
         return SV(m.t, z3.Store(m.e, pack(st, self.lift(a[1]), m.t.args[0]), pack(st, self.lift(a[2]), m.t.args[1])))
 
     # ---- python builtins
+    def bi_isinf(self, a, kw, st, node):
+        """math.isinf: the extended real `inf` is a distinguished constant (A2: floats are reals plus +-inf)"""
+        from .calls import INF
+        x = self.num(a[0], st, node)[0]
+        if x.sort().kind() == z3.Z3_INT_SORT:
+            x = z3.ToReal(x)
+        return SV(BOOL, z3.Or(x == INF, x == -INF))
+
     def bi_print(self, a, kw, st, node):
         return NONEV
 
@@ -354,7 +362,15 @@ class BuiltinMixin:
             yield SV(INT, r), st
         elif name == 'reverse':
             i = fresh_const('rv', z3.IntSort())
-            st.store[recv.id] = ListC(c.t, z3.Lambda([i], z3.Select(c.arr, c.n - 1 - i)), c.n, c.parent)
+            if z3.is_int_value(z3.simplify(c.n)):
+                narr = z3.Lambda([i], z3.Select(c.arr, c.n - 1 - i))
+            else:
+                # symbolic length: a fresh array with its defining property (triggered on reads of the new array);
+                # lambdas under quantified invariants make the solver give up
+                narr = fresh_const('rev', c.arr.sort())
+                st.assume(z3.ForAll([i], z3.Implies(z3.And(0 <= i, i < c.n), z3.Select(narr, i) == z3.Select(c.arr, c.n - 1 - i)),
+                                    patterns=[z3.Select(narr, i)]))
+            st.store[recv.id] = ListC(c.t, narr, c.n, c.parent)
             st.record_write(('cell', root_of(st, recv).id))
             write_through(st, recv)
             yield NONEV, st
